@@ -237,6 +237,36 @@ def _classify(w, prop_id, ob: Obligation, known, timeout) -> ObRec:
     return rec
 
 
+def _solve_with_retry(w, ob, timeout):
+    r = smt.solve_formula(w, ob.hyps, ob.goal, timeout)
+    if r[0] == "unknown" and "timeout" in (r[4] or ""):
+        # a budget that is ample on an idle machine can run out when all cores are busy (other checks, test runs): one retry with three times
+        # the budget before the obligation is called undecided; the time of both attempts is reported
+        r2 = smt.solve_formula(w, ob.hyps, ob.goal, 3 * timeout)
+        r = (r2[0], r2[1] + "(retry)", r[2] + r2[2], r2[3], r2[4])
+    return r
+
+
+_POBS, _PW, _PT = [], None, 30.0
+
+
+def _unit_to_pipe(u, conn, nprocs):
+    os.environ["PYVC_PROCS_INNER"] = str(nprocs)
+    try:
+        conn.send(_unit(u))
+    except Exception as e:
+        conn.send({"kind": "verify", "key": u[1], "records": [], "undecided": [f"{u[1]}: {type(e).__name__}: {e}"], "meta": {}})
+    finally:
+        conn.close()
+
+
+def _solve_shared(i):
+    try:
+        return i, tuple(_solve_with_retry(_PW, _POBS[i], _PT))
+    except Exception as e:  # solver crash: undecided, not a verdict
+        return i, ("unknown", "error", 0.0, None, f"{type(e).__name__}: {e}")
+
+
 def _unit(args):
     kind, key = args[:2]
     chunk, nchunks = (args[2], args[3]) if len(args) > 2 else (0, 1)
@@ -273,13 +303,25 @@ def _unit(args):
             if wname != "main" and getattr(prop, "tag_worlds", False):
                 for ob in obs:   # the same function verified under two worlds (two variants of a contract): keep the obligation names apart
                     ob.id = f"{wname}::{ob.id}"
+            if nchunks == 0:
+                # a function with many hard obligations: generated ONCE, here in the parent process, and solved by a pool of forked workers that see the list by index
+                # (an earlier design let every worker regenerate the list and take a share by position; under load a feasibility query can time out in one worker
+                # only, the lists then differ and shares no longer add up to the whole)
+                global _POBS, _PW, _PT
+                _POBS, _PW, _PT = obs, w, timeout
+                procs = int(os.environ.get("PYVC_PROCS_INNER", "0")) or int(os.environ.get("PYVC_PROCS", "0")) or min(16, os.cpu_count() or 4)
+                if len(obs) > 3 and procs > 1:
+                    with mp.get_context("fork").Pool(procs) as pool:
+                        solved = pool.map(_solve_shared, range(len(obs)), chunksize=1)
+                else:
+                    solved = [_solve_shared(i) for i in range(len(obs))]
+                for i, r in solved:
+                    ob = obs[i]
+                    ob.verdict, ob.solver, ob.seconds, ob.model, ob.reason = r
+                    out["records"].append(_classify(w, prop.id, ob, known, timeout))
+                return out
             for ob in obs[chunk::nchunks]:
-                r = smt.solve_formula(w, ob.hyps, ob.goal, timeout)
-                if r[0] == "unknown" and "timeout" in (r[4] or ""):
-                    # a budget that is ample on an idle machine can run out when all cores are busy (other checks, test runs): one retry with three times
-                    # the budget before the obligation is called undecided; the time of both attempts is reported
-                    r2 = smt.solve_formula(w, ob.hyps, ob.goal, 3 * timeout)
-                    r = (r2[0], r2[1] + "(retry)", r[2] + r2[2], r2[3], r2[4])
+                r = _solve_with_retry(w, ob, timeout)
                 ob.verdict, ob.solver, ob.seconds, ob.model, ob.reason = r
                 out["records"].append(_classify(w, prop.id, ob, known, timeout))
         elif kind == "lemmas":
@@ -342,11 +384,9 @@ def run_property(prop: Prop, tier: str, seed: int, new_world, timeout_quick=30.0
     known = load_known()
     _G.update(w=w, worlds=worlds, prop=prop, known=known, timeout=timeout)
     heavy = getattr(prop, "heavy", {})
-    units = []
+    units, big = [], []
     for t in list(prop.targets) + (list(getattr(prop, "targets_thorough", [])) if tier == "thorough" else []):   # targets_thorough: further pieces of a partitioned contract
-        n = heavy.get(t, 1)
-        units.extend(("verify", t, i, n) for i in range(n))
-    units.sort(key=lambda u: -heavy.get(u[1], 1))
+        (big if heavy.get(t, 1) > 1 else units).append(("verify", t, 0, 0 if heavy.get(t, 1) > 1 else 1))
     units += [("lemmas", "all")] + [("canary", n) for n, _ in prop.canaries(w)]
     procs = int(os.environ.get("PYVC_PROCS", "0")) or min(16, os.cpu_count() or 4, max(1, len(units)))
     if procs > 1:
@@ -354,6 +394,29 @@ def run_property(prop: Prop, tier: str, seed: int, new_world, timeout_quick=30.0
             results = pool.map(_unit, units, chunksize=1)
     else:
         results = [_unit(u) for u in units]
+    big.sort(key=lambda u: -heavy.get(u[1], 1))
+    # functions marked heavy: each gets a (non-daemonic) process of its own that generates the obligations ONCE and solves them with its own pool of forked workers
+    if len(big) <= 1 or procs <= 1:
+        results += [_unit(u) for u in big]
+    else:
+        total = (int(os.environ.get("PYVC_PROCS", "0")) or min(16, os.cpu_count() or 4)) * 3 // 2
+        wsum = sum(heavy.get(u[1], 1) for u in big)
+        ctx = mp.get_context("fork")
+        running = []
+        for u in big:
+            rd, wr = ctx.Pipe(duplex=False)
+            share = max(2, total * heavy.get(u[1], 1) // wsum)      # solver processes in proportion to the declared weight
+            pr = ctx.Process(target=_unit_to_pipe, args=(u, wr, share))
+            pr.daemon = False
+            pr.start()
+            wr.close()
+            running.append((u, pr, rd))
+        for u, pr, rd in running:
+            try:
+                results.append(rd.recv())
+            except EOFError:
+                results.append({"kind": "verify", "key": u[1], "records": [], "undecided": [f"{u[1]}: the worker process died"], "meta": {}})
+            pr.join()
 
     fps = {}
     for r in results:
